@@ -116,6 +116,10 @@ class Check:
     required_probes: tuple = ()
     quick_budget_s = 60.0
     thorough_budget_s = 900.0
+    # the quick tier explores at least this many seeded runs (scaled with an
+    # explicitly given budget) even when the machine is busy: it keeps going
+    # past its time budget, up to three times the budget, until they are done
+    quick_min_runs = 0
     batch = 50
 
     def setup_worker(self):
@@ -628,6 +632,13 @@ def drive(check_name, tier, verif_seed, budget_s=None, max_runs=None,
     next_index = 0
     batch = check.batch
     deadline = t0 + budget_s
+    min_runs = 0
+    if tier == "quick" and max_runs is None:
+        min_runs = int(check.quick_min_runs * budget_s / check.quick_budget_s)
+        if os.environ.get("VERIF_MIN_RUNS"):
+            min_runs = int(os.environ["VERIF_MIN_RUNS"])
+    hard_deadline = t0 + 3 * budget_s
+    extended = False
     with ProcessPoolExecutor(max_workers=workers, mp_context=ctx,
                              initializer=_worker_init,
                              initargs=(check_name, )) as pool:
@@ -664,7 +675,12 @@ def drive(check_name, tier, verif_seed, budget_s=None, max_runs=None,
                     dead_worker = repr(e)
             if dead_worker:
                 break
-            if _perf() < deadline and len(agg.violations) < 5:
+            if len(agg.violations) >= 5:
+                continue
+            if _perf() < deadline:
+                submit_more()
+            elif next_index < min_runs and _perf() < hard_deadline:
+                extended = True
                 submit_more()
         if dead_worker:
             for f in pending:
@@ -760,7 +776,11 @@ def drive(check_name, tier, verif_seed, budget_s=None, max_runs=None,
     ]
     path = write_evidence(check, tier, verif_seed, agg, wall,
                           len(new_violations), known_hit, selftest,
-                          extra={"zero_probes": zero_probes})
+                          extra={"zero_probes": zero_probes,
+                                 "budget_s": budget_s,
+                                 "min_seeded_runs": min_runs,
+                                 "seeded_runs_started": next_index,
+                                 "ran_past_budget_for_min_runs": extended})
     print(f"# {check.prop}: {agg.evaluations} runs, "
           f"{len(agg.nontrivial)} distinct non-trivial, "
           f"{len(agg.digests)} distinct event logs, {agg.steps} sim steps, "
